@@ -63,6 +63,11 @@ func ParseJSONFloatPrefix(data []byte) (f float64, n int, err error) {
 	return f, n, err
 }
 
+// maxExactExp bounds the exponents that are read exactly. A literal with ten thousand
+// leading or trailing zeros needs an exponent of that size to describe an ordinary value,
+// so the bound has to be far beyond the length of any input.
+const maxExactExp = 1000000000
+
 // readFloat reads a decimal mantissa and exponent from a float
 // string representation in s; the number may be followed by other characters.
 // readFloat reports the number of bytes consumed (i), and whether the number
@@ -175,10 +180,10 @@ finishUp:
 	}
 
 	// optional exponent moves decimal point.
-	// if we read a very large, very long number,
-	// just be sure to move the decimal point by
-	// a lot (say, 100000).  it doesn't matter if it's
-	// not the exact number.
+	// the exponent is read exactly up to maxExactExp; a larger
+	// one only needs to move the decimal point by a lot, because
+	// no number that fits in memory has enough digits to bring
+	// the value back into range.
 	if p < len(data) && (data[p] == 'e' || data[p] == 'E') {
 		if data[p-1] == '.' {
 			p = 0
@@ -200,7 +205,7 @@ finishUp:
 		}
 		e := 0
 		for ; p < len(data) && (data[p] >= '0' && data[p] <= '9'); p++ {
-			if e < 10000 {
+			if e < maxExactExp/10 {
 				e = e*10 + int(data[p]) - '0'
 			}
 		}
@@ -284,10 +289,10 @@ func (a *decimal) set(data []byte) (ok bool) {
 	}
 
 	// optional exponent moves decimal point.
-	// if we read a very large, very long number,
-	// just be sure to move the decimal point by
-	// a lot (say, 100000).  it doesn't matter if it's
-	// not the exact number.
+	// the exponent is read exactly up to maxExactExp; a larger
+	// one only needs to move the decimal point by a lot, because
+	// no number that fits in memory has enough digits to bring
+	// the value back into range.
 	if i < len(data) && (data[i] == 'e' || data[i] == 'E') {
 		i++
 		if i >= len(data) {
@@ -308,7 +313,7 @@ func (a *decimal) set(data []byte) (ok bool) {
 			if data[i] < '0' || data[i] > '9' {
 				break
 			}
-			if e < 10000 {
+			if e < maxExactExp/10 {
 				e = e*10 + int(data[i]) - '0'
 			}
 		}
